@@ -119,6 +119,12 @@ func c18cases(tier string) []c18case {
 			}
 		}
 	}
+	// A'. two members that use the SAME variable name: one writes it, the other reads it afterwards in a condition (each
+	//     behaves as it would alone: nothing one process stores is visible to another)
+	for _, m := range modes {
+		add(c18case{Execs: []string{"wv", "rv"}, Mode: m.m, K: m.k, Sched: "free"})
+		add(c18case{Execs: []string{"rv", "wv", "xor"}, Mode: m.m, K: m.k, Sched: "free"})
+	}
 	// B. the fast-process-missed witness, enforced: the watchers are held before they subscribe until the fast
 	//    processes (latefast) / all processes (lateall) have finished
 	for _, s := range [][]string{{"triv"}, {"triv", "triv"}, {"triv", "task"}, {"task"}, {"task", "xor"}, {"triv", "par", "task"}} {
@@ -297,6 +303,18 @@ func c18graph(id, shape string, executable bool) *eng.Graph {
 		chain(st, task("A"), throw(), task("B"), throwN("h2"), task("C"), en)
 	case "cat2": // two catch events in sequence, each woken by its own message flow
 		chain(st, catch(), catchN("c2"), task("A"), en)
+	case "wv": // writes the variable v (a declared result of its task)
+		chain(st, task("A", "v"), en)
+	case "rv": // READS a variable v it never writes: alone v is undefined and the default branch is taken
+		a := task("A")
+		x := g.Add("exclusiveGateway", "x", "")
+		b, c := task("B"), task("C")
+		chain(st, a, x)
+		g.Connect(x, b, &eng.Cond{Op: "eq", Var: "v", K: 1})
+		d := g.Connect(x, c, nil)
+		x.Default = d.ID
+		chain(b, en)
+		chain(c, en)
 	case "thrtwo": // two tokens pass ONE throw event (a fork whose branches meet at the event without a join)
 		f := g.Add("parallelGateway", "f", "")
 		h := throw()
